@@ -39,7 +39,9 @@ def gen(spec, out, hashseed, walkseed, py=sys.executable):
 def make_trees(tmp, tier, seed):
     """valid spec trees: the realistic corpus, permuted on-disk copies of it, and multi-file trees
     assembled from enumerated bodies (struct in the root file, packets referencing it)"""
-    trees = [("realistic", os.path.join(VERIF, "specs", "realistic"))]
+    # crossref: type references in every direction between files (root -> subdirectory, sibling <-> sibling,
+    # deep -> shallow, from nested case classes, with underlying-type overrides, from packets)
+    trees = [("realistic", os.path.join(VERIF, "specs", "realistic")), ("crossref", os.path.join(VERIF, "specs", "crossref"))]
     rng = random.Random(seed)
     src = trees[0][1]
     files = []
